@@ -36,9 +36,10 @@ func specMatcher(m *MSpec, vis []byte) int {
 		return sErr
 	}
 	if m.Not {
-		// MatchNot: an error (incl. need-more) of the inner set propagates;
-		// otherwise the verdict is negated. The inner set may hold a second matcher
-		// (AND, evaluated in order on the same bytes, only if the first said yes)
+		// MatchNot: its sets are evaluated in order; an error (incl. need-more) of a set
+		// propagates at once; a set that matches makes the not a no; if none matches it is a yes.
+		// The first set may hold a second matcher (AND, evaluated in order on the same bytes, only
+		// if the first said yes); a second set holds one matcher.
 		if v == sYes && m.And != nil {
 			switch m.And.m.Spec(vis) {
 			case 1:
@@ -53,6 +54,17 @@ func specMatcher(m *MSpec, vis []byte) int {
 		}
 		if v == sYes {
 			return sNo
+		}
+		if m.Or != nil {
+			switch m.Or.m.Spec(vis) {
+			case 1:
+				return sNo
+			case 0:
+			case 2:
+				return sMore
+			default:
+				return sErr
+			}
 		}
 		return sYes
 	}
@@ -109,6 +121,9 @@ func annotate(rl *RLSpec, id, parent string, cfg *c02cfg) {
 				cfg.matcherL[r.Sets[si][mi].ID] = id
 				if a := r.Sets[si][mi].And; a != nil {
 					cfg.matcherL[a.ID] = id
+				}
+				if o := r.Sets[si][mi].Or; o != nil {
+					cfg.matcherL[o.ID] = id
 				}
 			}
 		}
